@@ -13,6 +13,7 @@ CONSTRAINT DepthBound
 VIEW vw
 INVARIANT TypeOK
 INVARIANT DirtyOnlyInRW
+INVARIANT W2WellFormed
 INVARIANT ReopenEqualsLive
 INVARIANT LinksToNodes
 INVARIANT OneParent
@@ -23,6 +24,7 @@ INVARIANT RegistryMatchesMemory
 PROPERTY Footprint
 PROPERTY FrozenFile
 PROPERTY OptStaysStripped
+PROPERTY FreshOnlyWhenTaken
 INVARIANT ExportState
 ACTION_CONSTRAINT ExportTrans
 CHECK_DEADLOCK FALSE
